@@ -12,7 +12,7 @@
 (* The jitter of the expiry is pinned: R in Jit is the random number (in   *)
 (* thousandths) handed to mathx.Unstable, the expiry becomes               *)
 (* e * (1.05 - R/10000) seconds and the wheel's C10 rule gives the delay   *)
-(* DelayOf(e, R) ticks.  The ASSUME below keeps every product at least one *)
+(* DelayOf(e, R) ticks.  The ASSUME below keeps every product at least 0.1  *)
 (* millisecond away from a whole second (no floating-point borderline) and *)
 (* at or above one second (MoveTimer with a delay below the wheel interval *)
 (* is outside the C10 statement and not generated), and checks that the    *)
@@ -37,7 +37,7 @@ DelayOf(e, R) == Max2(1, Scaled(e, R) \div 10000)
 ASSUME \A e \in Expires \cup {Expire}, R \in Jit :
          /\ R \in 0..999
          /\ Scaled(e, R) >= 10000
-         /\ (Scaled(e, R) % 10000) \in 10..9990
+         /\ (Scaled(e, R) % 10000) \in 1..9999
          /\ DelayOf(e, R) \in Window(e)
 
 \* size of the cache after each of the ticks t+1..t+n at which it changes: <<[i, size]>>
